@@ -913,6 +913,7 @@ def run(ctx):
     quadratic_metamorphic(ctx, 40 if quick else 400)
     symmetric_support(ctx, 30 if quick else 300)
     scale_support(ctx, 10 if quick else 100)
+    masked_input_support(ctx, 15 if quick else 150)
 
 
 def com_metamorphic(ctx, c, impl, desc):
@@ -1220,6 +1221,151 @@ def gen_src_clean(rng, fname):
     return dict(fname=fname, data=data, xs=xs, ys=ys, box=9, foot=None, mask=None, kw=kw, kind='clean')
 
 
+JUNK_DATA = [1e6, -7.0, math.nan, math.inf, -math.inf, 0.0, 1e300, -1e-300]
+JUNK_ERROR = [1e6, 0.0, math.nan, math.inf, 1e-12, 1e300, 3.0, -1.0]
+TAKES_ERROR = ('1dg', '2dg')
+
+
+def junk_under(rng, a, where, values):
+    """copy of `a` whose entries at `where` are replaced by arbitrary values."""
+    b = np.array(a, float)
+    b[where] = [rng.choice(values) for _ in range(int(np.count_nonzero(where)))]
+    return b
+
+
+def rand_error(rng, shape):
+    return np.array([[rng.randint(1, 8) / 2 for _ in range(shape[1])] for _ in range(shape[0])], float)
+
+
+def call_masked(name, data, mask, error):
+    kw = {'error': error.copy()} if name in TAKES_ERROR else {}
+    return safe(funcs()[name], data.copy(), mask=mask.copy(), **kw)
+
+
+def bitwise(a, b):
+    return same_float(a[0], b[0]) and same_float(a[1], b[1])
+
+
+def cutout_of(c, xp, yp):
+    """(y0, y1, x0, x1, iy, ix) of the cutout centroid_sources makes for one position."""
+    foot = footprint_of(c)
+    fy, fx = foot.shape
+    ny, nx = c['data'].shape
+    iy = math.ceil(Fraction(yp) - Fraction(fy, 2))
+    ix = math.ceil(Fraction(xp) - Fraction(fx, 2))
+    return max(0, iy), min(ny, iy + fy), max(0, ix), min(nx, ix + fx), iy, ix
+
+
+def masked_input_support(ctx, n):
+    """'ignores masked pixels' values' for EVERY per-pixel input: replacing the data AND the
+    error under the mask (huge, zero, negative, NaN, inf) must not change a single bit of the
+    result -- for every centroid function (error= for those that accept it), directly and
+    through centroid_sources (input mask; pixels excluded by a non-rectangular footprint).
+    The symmetry-centre, flip and transposition relations are run with a mask and a
+    non-constant error map as well (symmetric where required, arbitrary under the mask)."""
+    rng = ctx.rng
+    names = ('com', 'quadratic', '1dg', '2dg')
+    for i in range(n):
+        ny, nx = rng.randint(7, 12), rng.randint(7, 12)
+        y, x = np.mgrid[:ny, :nx]
+        ox, oy = rng.uniform(2.5, nx - 3.5), rng.uniform(2.5, ny - 3.5)
+        # a source that is not exactly Gaussian (so that the weights matter)
+        data = np.round(100 * np.exp(-((x - ox) ** 2 / (2 * 1.5 ** 2) + (y - oy) ** 2 / (2 * 1.3 ** 2)))) \
+            + np.array([[rng.randint(0, 6) for _ in range(nx)] for _ in range(ny)], float)
+        yx = np.unravel_index(np.argmax(data), data.shape)
+        data[yx] += 3
+        err = rand_error(rng, data.shape)
+        m = rand_mask(rng, data.shape, rng.choice([0.05, 0.15, 0.3]))
+        m[yx] = False
+        if not m.any():
+            m[(yx[0] + 1) % ny, yx[1]] = True
+        d2, e2 = junk_under(rng, data, m, JUNK_DATA), junk_under(rng, err, m, JUNK_ERROR)
+        for name in names:
+            a = call_masked(name, data, m, err)
+            b = call_masked(name, d2, m, e2)
+            ctx.support(f'masked_inputs_{name}')
+            rec = {'fn': 'masked_inputs', 'func': name, 'data': jimg(data), 'data2': jimg(d2), 'error': jimg(err),
+                   'error2': jimg(e2), 'mask': m.astype(int).tolist()}
+            ctx.count_case(rec, not math.isnan(a[0]))
+            if not bitwise(a, b):
+                ctx.violation(f'centroid_{name}:masked-inputs-ignored', f'centroid_{name}: changing the data'
+                              + (' and error' if name in TAKES_ERROR else '') + f' values under the mask changed '
+                              f'the result from {a} to {b}', rec)
+            # flips / transposition with mask and error (com: exact; quadratic 1e-7; fits 2e-3)
+            tol = {'com': 1e-9, 'quadratic': 1e-7}.get(name, 2e-3)
+            rels = [('flip-x', call_masked(name, d2[:, ::-1], m[:, ::-1], e2[:, ::-1]), (nx - 1 - a[0], a[1])),
+                    ('flip-y', call_masked(name, d2[::-1, :], m[::-1, :], e2[::-1, :]), (a[0], ny - 1 - a[1])),
+                    ('transpose', call_masked(name, d2.T, m.T, e2.T), (a[1], a[0]))]
+            for rname, got, want in rels:
+                ctx.support(f'masked_{rname}_{name}')
+                if not all((math.isnan(g) and math.isnan(w)) or abs(g - w) <= tol for g, w in zip(got, want)):
+                    ctx.violation(f'centroid_{name}:{rname}', f'centroid_{name} {rname} with mask'
+                                  + (' and error map' if name in TAKES_ERROR else '') + f': got {got}, expected {want} '
+                                  f'(tolerance {tol})', dict(rec, relation=rname))
+        # ---- point-symmetric source, point-symmetric mask, error symmetric on the unmasked pixels ----
+        sy, sx = rng.randint(7, 13), rng.randint(7, 13)
+        sdata = sym_source(rng, sy, sx, sx - 1, sy - 1, 2.5) + 2.0
+        m0 = rand_mask(rng, sdata.shape, rng.choice([0.05, 0.15]))
+        sm = m0 | m0[::-1, ::-1]
+        e0 = rand_error(rng, sdata.shape)
+        serr = junk_under(rng, (e0 + e0[::-1, ::-1]) / 2, sm, JUNK_ERROR)
+        sd = junk_under(rng, sdata, sm, JUNK_DATA)
+        cx, cy = (sx - 1) / 2, (sy - 1) / 2
+        for name in ('com', '1dg', '2dg'):
+            r = call_masked(name, sd, sm, serr)
+            tol = 1e-9 if name == 'com' else 2e-3
+            ctx.support(f'masked_symmetric_centre_{name}')
+            if math.isnan(r[0]) and name == 'com' and com_oracle(sd, sm) != 'raise' and math.isnan(com_oracle(sd, sm)[0]):
+                continue
+            if not (abs(r[0] - cx) <= tol and abs(r[1] - cy) <= tol):
+                ctx.violation(f'centroid_{name}:symmetry-centre', f'centroid_{name} on a point-symmetric source with a '
+                              f'point-symmetric mask' + (' and error map' if name in TAKES_ERROR else '')
+                              + f': {r}, centre {(cx, cy)} (tolerance {tol})',
+                              {'fn': 'masked_symmetric', 'func': name, 'centre': [cx, cy], 'data': jimg(sd),
+                               'error': jimg(serr), 'mask': sm.astype(int).tolist()})
+        # ---- through centroid_sources: input mask ----
+        name = names[i % 4]
+        c = gen_src_real(rng, name) if name in ('com', 'quadratic') else gen_src_clean(rng, name)
+        gm = rand_mask(rng, c['data'].shape, rng.choice([0.03, 0.1]))
+        for xp, yp in zip(c['xs'], c['ys']):
+            gm[int(round(yp)), int(round(xp))] = False
+        if not gm.any():
+            gm[0, 0] = True
+        c = dict(c, mask=gm, kw=dict(c['kw']))
+        if name in TAKES_ERROR:
+            c['kw']['error'] = rand_error(rng, c['data'].shape)
+        c2 = dict(c, data=junk_under(rng, c['data'], gm, JUNK_DATA), kw=dict(c['kw']))
+        if 'error' in c['kw']:
+            c2['kw']['error'] = junk_under(rng, c['kw']['error'], gm, JUNK_ERROR)
+        sources_blind(ctx, name, c, c2, 'input mask')
+        # ---- through centroid_sources: pixels excluded by a non-rectangular footprint (one position) ----
+        foot = np.ones((rng.choice([5, 7]), rng.choice([5, 7])), bool)
+        for _ in range(rng.randint(1, 5)):
+            foot[rng.randrange(foot.shape[0]), rng.randrange(foot.shape[1])] = False
+        foot[foot.shape[0] // 2, foot.shape[1] // 2] = True
+        c = dict(c, box=None, foot=foot, mask=None, xs=c['xs'][:1], ys=c['ys'][:1])
+        y0, y1, x0, x1, iy, ix = cutout_of(c, c['xs'][0], c['ys'][0])
+        excl = np.zeros(c['data'].shape, bool)
+        excl[y0:y1, x0:x1] = ~foot[y0 - iy:y1 - iy, x0 - ix:x1 - ix]
+        if excl.any():
+            c2 = dict(c, data=junk_under(rng, c['data'], excl, JUNK_DATA), kw=dict(c['kw']))
+            if 'error' in c['kw']:
+                c2['kw']['error'] = junk_under(rng, c['kw']['error'], excl, JUNK_ERROR)
+            sources_blind(ctx, name, c, c2, 'footprint')
+
+
+def sources_blind(ctx, name, c, c2, what):
+    a, b = src_impl(c), src_impl(c2)
+    ctx.support(f'masked_inputs_sources_{name}')
+    rec = dict(src_describe(c), fn='masked_inputs_sources', func=name, data2=jimg(c2['data']),
+               error2=jimg(c2['kw']['error']) if 'error' in c2['kw'] else None)
+    ctx.count_case(rec, a != 'raise')
+    if (a == 'raise') != (b == 'raise') or (a != 'raise' and (len(a) != len(b) or not all(bitwise(p, q) for p, q in zip(a, b)))):
+        ctx.violation(f'centroid_sources:masked-inputs-ignored:{name}', f'centroid_sources(centroid_func=centroid_{name}): '
+                      f'changing the data' + (' and error' if 'error' in c2['kw'] else '') + f' values of pixels masked by the '
+                      f'{what} changed the result from {a} to {b}', rec)
+
+
 def sym_source(rng, ny, nx, cx2, cy2, radius=2.0):
     """non-Gaussian source that is point symmetric about (cx2/2, cy2/2), zero outside
     `radius`, with its maximal pixels next to the centre (dyadic values)."""
@@ -1349,6 +1495,27 @@ def replay(obj):
             com_metamorphic(cc, dict(data=data, mask=mask, sym=None), impl, {})
             print('metamorphic failures:', cc.bad)
             ok = not cc.bad
+    elif fn == 'masked_inputs':
+        m = np.array(r['mask'], bool)
+        a = call_masked(r['func'], unj(r['data']), m, unj(r['error']))
+        b = call_masked(r['func'], unj(r['data2']), m, unj(r['error2']))
+        print(f"centroid_{r['func']}: original {a};  other values under the mask {b}")
+        ok = bitwise(a, b)
+        if ok and r.get('relation'):
+            print('relation', r['relation'], 'is re-checked by bin/check (same seed)')
+    elif fn == 'masked_symmetric':
+        a = call_masked(r['func'], unj(r['data']), np.array(r['mask'], bool), unj(r['error']))
+        print(f"centroid_{r['func']}: {a};  symmetry centre {tuple(r['centre'])}")
+        tol = 1e-9 if r['func'] == 'com' else 2e-3
+        ok = abs(a[0] - r['centre'][0]) <= tol and abs(a[1] - r['centre'][1]) <= tol
+    elif fn == 'masked_inputs_sources':
+        c = src_undescribe(r)
+        c2 = dict(c, data=unj(r['data2']), kw=dict(c['kw']))
+        if r.get('error2') is not None:
+            c2['kw']['error'] = unj(r['error2'])
+        a, b = src_impl(c), src_impl(c2)
+        print(f'centroid_sources: original {a};  other values under the mask {b}')
+        ok = (a == 'raise') == (b == 'raise') and (a == 'raise' or (len(a) == len(b) and all(bitwise(p, q) for p, q in zip(a, b))))
     elif fn == 'scale':
         f = funcs()[r['func']]
         data = unj(r['data'])
